@@ -36,6 +36,7 @@ def run(ctx, rep):
                      'state carried across fits, uninitialised buffers, RNG use in fit, cloning); equality of '
                      'fitted numbers is not computed.')
     rep.guarded('L1.l1', l1, ctx, rep)
+    rep.guarded('L1.l1c', l1_check, ctx, rep)
     rep.guarded('L2.l2', l2, ctx, rep)
     rep.guarded('L3.l3', l3, ctx, rep)
     rep.guarded('L4.l4', l4, ctx, rep)
@@ -87,6 +88,81 @@ def l1(ctx, rep, rule='L1.guard', names=QUERY_METHODS, only_classes=None):
     if only_classes is None:
         rep.floor(rule, 'query-method definitions analysed', n_defs, 30)
     return n_defs
+
+
+# ------------------------------------------------------------------ L1.check what check_fit tests
+def l1_check(ctx, rep):
+    """check_fit itself: NotFittedError is raised in the state __init__ leaves behind, is the only way out of that state,
+    and is not raised once the fitted indicator is set."""
+    prog = ctx.prog
+    rep.rule('L1.check', 'every check_fit raises NotFittedError in the state __init__ leaves (indicator falsy), cannot return normally in that state, '
+             'and does not raise it once fit has set the indicator')
+    from ..boolcond import Conds, atoms_of, f_and, f_or, satisfiable, show, substitute
+    import re
+    defs = [f for f in prog.functions.values() if f.name == 'check_fit' and f.cls is not None and f.kind == 'method'
+            and not only_raises(f) and [s_ for s_ in f.body() if not isinstance(s_, ast.Pass)]]
+    for f in sorted(defs, key=lambda g: g.qualname):
+        cd = Conds(prog, f)
+        normal, rs, _rets = cd.exits()
+        nfe = [c for st_, c in rs if _raises_name(st_, 'NotFittedError')]
+        if not nfe:
+            rep.bad('L1.check', f, f.node.name, f'{f.short} never raises NotFittedError: an unfitted model is queried as if it were fitted', construct=f'{f.cls.name}.check_fit')
+            continue
+        cond = f_or(*nfe)
+        sn = f.self_name
+        # indicator attributes and their value right after construction
+        unfitted, fitted, unknown = {}, {}, []
+        for k in set(atoms_of(cond)) | set(atoms_of(normal)):
+            m = re.match(r'(truth|isnone)\[' + re.escape(sn) + r'\.([A-Za-z_][A-Za-z_0-9]*)\]$', k)
+            if not m:
+                continue
+            kind, attr = m.groups()
+            init = _initial_value(prog, f.cls, attr)
+            if init is None:
+                unknown.append(attr)
+                continue
+            v = init.value
+            unfitted[k] = (bool(v) if kind == 'truth' else v is None)
+            fitted[k] = (kind == 'truth')
+        if not unfitted:
+            rep.undecided('L1.check', f, f.node.name, f'{f.short}: the test that raises NotFittedError (`{show(cond)[:80]}`) is not on an attribute with a constant '
+                          f'initial value{" (" + ", ".join(unknown) + ")" if unknown else ""}', construct=f'{f.cls.name}.check_fit')
+            continue
+        raised_unfitted = satisfiable(substitute(cond, unfitted))
+        escapes = satisfiable(substitute(normal, unfitted))
+        raised_fitted = satisfiable(substitute(cond, fitted))
+        free = set(atoms_of(substitute(cond, unfitted))) | set(atoms_of(substitute(normal, unfitted)))
+        if free and (escapes or not raised_unfitted):
+            rep.undecided('L1.check', f, f.node.name, f'{f.short}: the outcome on a fresh model also depends on {sorted(free)[:3]}', construct=f'{f.cls.name}.check_fit')
+        elif not raised_unfitted or escapes:
+            rep.bad('L1.check', f, f.node.name, f'{f.short} returns normally on a freshly constructed model (NotFittedError under `{show(cond)[:80]}`; '
+                    f'fresh state: {sorted(unfitted.items())}): queries on an unfitted model are not refused', construct=f'{f.cls.name}.check_fit')
+        elif raised_fitted and not set(atoms_of(substitute(cond, fitted))):
+            rep.bad('L1.check', f, f.node.name, f'{f.short} raises NotFittedError once the indicator is set (`{show(cond)[:80]}`): a fitted model cannot be queried',
+                    construct=f'{f.cls.name}.check_fit')
+        else:
+            rep.ok('L1.check', f, f.node.name, f'NotFittedError exactly in the fresh state ({", ".join(sorted(unfitted))})', construct=f'{f.cls.name}.check_fit')
+
+
+def _raises_name(st, name):
+    if isinstance(st, ast.Raise) and st.exc is not None:
+        e = st.exc.func if isinstance(st.exc, ast.Call) else st.exc
+        return (isinstance(e, ast.Name) and e.id == name) or (isinstance(e, ast.Attribute) and e.attr == name)
+    return False
+
+
+def _initial_value(prog, cls, attr):
+    """Constant the attribute holds right after construction (__init__ assignment or class-level default), else None."""
+    for k in cls.mro():
+        init = k.methods.get('__init__')
+        if init is not None and init.self_name:
+            vals = [a.value for a in walk_no_nested(init.node) if isinstance(a, ast.Assign) and any(is_self_attr(t, init.self_name, attr) for t in a.targets)]
+            if vals:
+                return vals[-1] if len(vals) == 1 and isinstance(vals[0], ast.Constant) else None
+        d = k.attrs.get(attr)
+        if d is not None:
+            return d if isinstance(d, ast.Constant) else None
+    return None
 
 
 # ---------------------------------------------------------------------- L2 input validation
